@@ -3,7 +3,7 @@
    payload-level monitors of Spec/C15.v in their strict form, the client information handed
    back differs at most in the destination port, which is the expected source port of the
    reply; over UDP the emitted frame satisfies the frame-level monitors, ports included. *)
-From MS Require Import Proofs.Tactics Stun Proto L2 Spec.View Spec.RefDec Spec.RefStun Spec.AppView Spec.C15
+From MS Require Import Proofs.Tactics Proofs.Pending Stun Proto L2 Spec.View Spec.RefDec Spec.RefStun Spec.AppView Spec.C15
      Proofs.DecLemmas Proofs.Pipeline Proofs.ViewLemmas Proofs.Factor Proofs.DecLemmas2 Proofs.Lift
      Proofs.C15Ref Proofs.C15Walk Proofs.C15Model Proofs.C15Handler.
 
@@ -119,12 +119,11 @@ Theorem proto_tcp_first_stun (E : env) (clk : clock) (ci : cinfo) (p : bytes) :
   tcp_first_id E p = Some PROTO_STUN ->
   exists st,
     proto_repl_tcp E clk ci tcb_new p =
-      Ok (fst (stun_repl ci p), {| t_smack := st; t_proto := PROTO_STUN; t_pstate := None |},
+      Ok (fst (stun_repl ci p), {| t_smack := st; t_proto := PROTO_STUN; t_pstate := None; t_pending := [] |},
           snd (stun_repl ci p)).
 Proof.
-  intros Hid. unfold proto_repl_tcp. unfold tcp_first_id in Hid.
-  change (t_proto tcb_new =? PROTO_NONE) with true. cbv iota. change (t_smack tcb_new) with BASE_STATE.
-  destruct (search_next (e_proto_tbl E) BASE_STATE p) as [[id st] n]. subst id.
+  intros Hid. rewrite proto_repl_tcp_first. unfold tcp_first_id in Hid.
+  destruct (search_next (e_proto_tbl E) BASE_STATE p) as [[id st] n]. subst id. cbv zeta.
   cbn [id_of t_proto]. exists st. rewrite dispatch_stun. reflexivity.
 Qed.
 
